@@ -1,5 +1,52 @@
-import Driver.Proto
-/-! C14 handler (not implemented yet). -/
+import Driver.Gql
+import ThunderModel.Gql.Conform
+/-! C14 handler: verdicts of validation and conformance of a response. -/
+open Lean TM TM.Gql Driver.Gql
+
 namespace Driver.C14
-def handle : Handler := fun _ => throw "C14: no model yet"
+
+partial def decJ (j : Json) : Except String J :=
+  match j with
+  | .null => pure .null
+  | .arr a => do pure (.arr (← a.toList.mapM decJ))
+  | .obj _ =>
+    match j.getObjVal? "s" with
+    | .ok v => do pure (.sc (← v.getInt?))
+    | .error _ =>
+      match j.getObjVal? "o" with
+      | .ok (.arr kvs) => do
+          let l ← kvs.toList.mapM fun kv => do
+            let a ← kv.getArr?
+            let k ← (a[0]?.getD Json.null).getNat?
+            let v ← decJ (a[1]?.getD Json.null)
+            pure (k, v)
+          pure (.obj l)
+      | _ => throw "bad J"
+  | _ => throw "bad J"
+
+def handle : Handler := fun req => do
+  let op ← str req "op"
+  match op with
+  | "verdict" =>
+    let σ ← decSchema (← field req "schema")
+    let root ← nat req "root"
+    let q ← decSelSet (← field req "query")
+    let fuel ← nat req "fuel"
+    pure <| Json.mkObj [("validate", validate σ fuel (.object root) (some q)), ("noConflict", noConflict fuel q),
+      ("validF", validF σ fuel (.object root) (some q))]
+  | "conform" =>
+    let σ ← decSchema (← field req "schema")
+    let root ← nat req "root"
+    let data ← decVal (← field req "data")
+    let q ← decSelSet (← field req "query")
+    let fuel ← nat req "fuel"
+    let resp ← decJ (← field req "response")
+    -- the root object carries no key entry
+    let σ' : Schema := { σ with objects := σ.objects.map fun (n, od) => if n = root then (n, { od with key := none }) else (n, od) }
+    pure <| Json.mkObj [("conforms", conforms σ' fuel (.object root) (some q) resp),
+      ("wellTyped", wellTyped σ fuel (.object root) data),
+      ("shapeOk", shapeOk σ fuel (.object root) (some q) data),
+      ("exec", encRes (execute σ fuel root data q))]
+  | _ => throw s!"C14: unknown op {op}"
+
 end Driver.C14
